@@ -10,7 +10,7 @@
 EXTENDS Naturals, TLC, Json
 VARIABLE run
 Allows == {<<>>, <<"All">>, <<"Deprecated">>, <<"BrokenDocLink", "IncorrectDocComment">>}
-Init == /\ run \in [prog : 1..7, format : {"human", "json"}, disable_color : BOOLEAN, allow : Allows, gen : {"none", "missing", "okwarn"},
+Init == /\ run \in [prog : 1..8, format : {"human", "json"}, disable_color : BOOLEAN, allow : Allows, gen : {"none", "missing", "okwarn"},
                      driver : {"binary", "library"}]
         /\ (run.driver = "library" => run.gen = "none")      \* generators belong to the binary
 Next == UNCHANGED run
